@@ -42,7 +42,8 @@ VALS = [None, 1, 2, 3, 0.5, 'p', 'q', D(2021, 5, 5)]
 def rand_table(rng, ncols=None, nan_ok=True, min_rows=0):
     ncols = ncols or rng.choice([2, 2, 3, 3, 4])
     n = max(min_rows, rng.choice([0, 1, 2, 3, 4, 5, 6, 7, 8]))
-    names = ['a', 'b', 'c', 'd'][:ncols]
+    # one table in five has column names that are substrings of one another ('t' in 'ticker'): key / column selection by name must be exact
+    names = (['a', 'b', 'c', 'd'] if rng.random() < 0.8 else rng.choice([['ticker', 't', 'date', 'a'], ['name', 'me', 'n', 'a'], ['ab', 'a', 'b', 'abc']]))[:ncols]
     t = []
     for k in names:
         r = rng.random()
